@@ -63,6 +63,7 @@ func (ft *ftrans) exprU(e *env, x ast.Expr) string {
 		if v.typ != "uint64" {
 			p.failAt(x, "%s: %s has type %s, a uint64 is needed", ft.sum.key, x.Name, v.typ)
 		}
+		ft.noteScalarRead(e, v)
 		return v.name
 	case *ast.IndexExpr:
 		v, j, _ := ft.limbRef(e, x)
@@ -106,6 +107,7 @@ func (ft *ftrans) convU64(e *env, x ast.Expr) string {
 	x = unparen(x)
 	if id, ok := x.(*ast.Ident); ok {
 		if v := e.lookup(id.Name); v != nil && v.typ == "uint8" {
+			ft.noteScalarRead(e, v)
 			return v.name
 		}
 	}
@@ -132,6 +134,7 @@ func (ft *ftrans) exprB(e *env, x ast.Expr) string {
 		if v == nil || v.typ != "bool" {
 			p.failAt(x, "%s: %s is not a bool variable", ft.sum.key, x.Name)
 		}
+		ft.noteScalarRead(e, v)
 		return v.name
 	case *ast.UnaryExpr:
 		if x.Op == token.NOT {
